@@ -115,13 +115,53 @@ SYNTH_ASSUME = [
 ]
 
 
+MC_CFG = """SPECIFICATION Spec
+CONSTANTS
+  NC = %(nc)d
+  MaxDepth = %(depth)d
+  ArpOn = %(arp)s
+  AllocMode = %(alloc)d
+  EmitDepth = %(emit)d
+INVARIANT NoBad
+%(extra)s
+CHECK_DEADLOCK FALSE
+"""
+
+
+def write_cfg(name, text):
+    os.makedirs(vc.OUT, exist_ok=True)
+    p = os.path.join(vc.OUT, name)
+    open(p, "w").write(text)
+    return p
+
+
 def synth_model_phase(pid, tier):
-    """Leg (A): model check spec/SynthMC (if present) and return coverage numbers."""
-    cfg = os.path.join(vc.SPEC, "SynthMC_%s.cfg" % tier)
-    if not os.path.exists(os.path.join(vc.SPEC, "SynthMC.tla")) or not os.path.exists(cfg):
-        return None
-    r = vc.run_tlc("SynthMC", cfg=os.path.basename(cfg), timeout=1500 if tier == "quick" else 3000, heap="24g", coverage=False)
-    return r
+    """Leg (A): exhaustive model checking of spec/SynthMC for a small scope.  Returns list of TlcResult."""
+    runs = []
+    scopes = [(3, 7, "FALSE", 3)] if tier == "quick" else [(3, 10, "FALSE", 3), (2, 9, "TRUE", 3), (3, 8, "TRUE", 1), (2, 9, "FALSE", 2)]
+    for (nc, depth, arp, alloc) in scopes:
+        cfg = write_cfg("SynthMC_%s_%d_%d_%s_%d.cfg" % (pid, nc, depth, arp, alloc),
+                        MC_CFG % {"nc": nc, "depth": depth, "arp": arp, "alloc": alloc, "emit": 0,
+                                  "extra": "CONSTRAINT DepthBound\nVIEW View"})
+        r = vc.run_tlc("SynthMC", cfg=cfg, timeout=2400, heap="24g", tag="SynthMC-" + pid)
+        r.scope = {"NC": nc, "depth": depth, "arp": arp, "alloc": alloc}
+        runs.append(r)
+    return runs
+
+
+def synth_model_behaviours(pid, n, depth, nc=3, arp="FALSE", alloc=3):
+    """Behaviours generated by TLC (simulation of SynthMC) to be replayed on the real library."""
+    cfg = write_cfg("SynthMC_sim_%s.cfg" % pid, MC_CFG % {"nc": nc, "depth": 1000, "arp": arp, "alloc": alloc, "emit": depth,
+                                                          "extra": "CONSTRAINT Emit"})
+    r = vc.run_tlc("SynthMC", cfg=cfg, timeout=600, heap="8g", simulate=max(1, n // 4), depth=depth + 1, workers=4, tag="SynthSim-" + pid)
+    beh = re.findall(r'"BEHAVIOUR",\s*"(\[[0-9,\s]*\])"', r.out)
+    init = {"e": "Init", "rate": 44100, "chips": 1, "lim": nc, "mch": [0, 9], "arp": 1 if arp == "TRUE" else 0,
+            "alloc": -1 if alloc == 3 else alloc, "banks": gen_synth.ALLOC_BANKS}
+    hs = []
+    for b in beh[:n]:
+        idx = json.loads(b)
+        hs.append([init] + [gen_synth.SMALL_ALPHABET[i - 1] for i in idx])
+    return hs, r
 
 
 def run_synth_family(pid, tier, replay, profile, nhist, length, exhaustive_depth=0):
@@ -150,27 +190,43 @@ def run_synth_family(pid, tier, replay, profile, nhist, length, exhaustive_depth
         for lim in (2, 3):
             histories += list(gen_synth.exhaustive_histories(exhaustive_depth, lim=lim))
     nex = len(histories)
+    # behaviours chosen by TLC from the model (direction model -> code)
+    nbeh = 300 if tier == "quick" else 3000
+    mb, simr = synth_model_behaviours(pid, nbeh, 24 if tier == "quick" else 40, nc=3)
+    mb2, _ = synth_model_behaviours(pid + "a", nbeh // 2, 24, nc=2, arp="TRUE", alloc=1)
+    histories += mb + mb2
+    nmb = len(mb) + len(mb2)
     histories += [gen_synth.random_history(rng, profile, length) for _ in range(nhist)]
     failures, counters, stats = vtrace.run_histories(pid, "drive_synth", "SynthTrace", histories)
     if stats["infra"]:
         print("INFRA:", stats["infra"][0][:2000])
         return 3
-    mr = synth_model_phase(pid, tier)
+    mruns = synth_model_phase(pid, tier)
+    mstates = sum(r.distinct for r in mruns)
+    mtrans = sum(r.generated for r in mruns)
     coverage = {
-        "states": mr.distinct if mr else 0, "transitions": mr.generated if mr else 0,
+        "states": mstates, "transitions": mtrans,
         "traces_validated_against_impl": len(histories),
         "records_validated": stats["records"],
         "exhaustive_short_histories": nex,
+        "model_generated_behaviours_replayed": nmb,
+        "refinement": {"steps_checked_against_model": counters.get("refined", 0), "steps_skipped": counters.get("refskip", 0),
+                       "steps_drifted": counters.get("drifted", 0), "first_drifts": stats.get("drift", [])[:5]},
         "monitor_counters": counters,
-        "samples": sample_histories(histories[nex:], 2) + sample_histories(histories[:1], 1),
+        "samples": sample_histories(histories[nex + nmb:], 2) + sample_histories(histories[nex:nex + 1], 1),
         "evaluations": stats["records"], "distinct_nontrivial": len(histories),
-        "rule": "every recorded API call is one evaluation; histories are distinct random/exhaustive call sequences",
+        "rule": "every recorded API call is one evaluation; histories are distinct random / exhaustive / TLC-generated call sequences",
+        "model_runs": [{"scope": r.scope, "ok": r.ok, "violation": r.violation, "distinct": r.distinct, "generated": r.generated,
+                        "depth": r.depth, "wall_s": round(r.wall, 1)} for r in mruns],
+        "exhaustive": False,
     }
-    if mr is not None:
-        coverage["model"] = {"ok": mr.ok, "violation": mr.violation, "depth": mr.depth, "wall_s": round(mr.wall, 1)}
-        if mr.violation:
-            print("MODEL-DRIFT: SynthMC reports %s (model-level counterexample; not a verdict on the code)" % mr.violation)
-    level = "model_checking" if mr is not None and mr.distinct > 0 else "exploration"
+    for r in mruns:
+        if r.violation or not r.ok:
+            print("MODEL-DRIFT: SynthMC %s reports %s (model-level result; not a verdict on the code)" % (r.scope, r.violation or ("rc=%s" % r.rc)))
+    if counters.get("drifted", 0):
+        print("MODEL-DRIFT: %d of %d recorded steps are not steps of spec/Synth.tla (refinement leg C); first: %s"
+              % (counters["drifted"], counters.get("refined", 0), json.dumps(stats.get("drift", [])[:2])))
+    level = "model_checking" if mstates > 0 else "exploration"
     return conclude(pid, tier, level, histories, failures, rerun, coverage, t0, SYNTH_ASSUME)
 
 
